@@ -44,8 +44,10 @@ var selRules = map[string]map[string]string{
 	"net":       {"DialTimeout": "DialTimeout"},
 }
 
-// sync.Pool is only replaced in this file (the request-object pool).
-var poolFiles = map[string]bool{"core/message.go": true}
+// sync.Pool is replaced by the deterministic LIFO free list in every rewritten file: the request/fragment object pools
+// (core/message.go), the ring-buffer and byte-slice pools behind the connection buffers (core/pkg/pool/...), the task and
+// poll-attachment pools of the loop. A LIFO free list is a legal sync.Pool and the most adversarial one: whatever state
+// an object is handed back with is what the very next Get returns.
 
 // map fields whose iteration order is made deterministic (and explorer-permutable)
 var mapFields = map[string]string{ // field name -> key type
@@ -200,7 +202,7 @@ func rewriteFile(rel string, src []byte) ([]byte, counts, bool, error) {
 				usesVsys = true
 			}
 		}
-		if path == "sync" && se.Sel.Name == "Pool" && poolFiles[rel] {
+		if path == "sync" && se.Sel.Name == "Pool" {
 			c["sync.Pool"]++
 			id.Name = vsysName
 			usesVsys = true
